@@ -442,6 +442,16 @@ func (env *verifEnv) c04Mutations(kind string) []c04Mut {
 		{"username=bob", set("username", "bob")},
 		{"auth_exp=past", set("auth_exp", now-3600)},
 		{"exp=string", set("exp", "9999999999")},
+		// the comparisons' boundaries (values taken when the mutation is applied, just before use)
+		{"exp=-2s", func(c map[string]interface{}) { c["exp"] = time.Now().Unix() - 2 }},
+		{"exp=-30s", func(c map[string]interface{}) { c["exp"] = time.Now().Unix() - 30 }},
+		{"exp=-59s", func(c map[string]interface{}) { c["exp"] = time.Now().Unix() - 59 }},
+		{"exp=-90s", func(c map[string]interface{}) { c["exp"] = time.Now().Unix() - 90 }},
+		{"exp=+30s", func(c map[string]interface{}) { c["exp"] = time.Now().Unix() + 30 }},
+		{"nbf=+30s", func(c map[string]interface{}) { c["nbf"] = time.Now().Unix() + 30 }},
+		{"nbf=+59s", func(c map[string]interface{}) { c["nbf"] = time.Now().Unix() + 59 }},
+		{"nbf=+90s", func(c map[string]interface{}) { c["nbf"] = time.Now().Unix() + 90 }},
+		{"nbf=-1s", func(c map[string]interface{}) { c["nbf"] = time.Now().Unix() - 1 }},
 	}
 	var kinds []string
 	for k := range c04KindConst {
